@@ -80,3 +80,17 @@ Qed.
 (* without the wait: a callback of the new connection begins while the one that was left behind is still running *)
 Theorem no_wait_overlaps : g_overlap (grun false g0 [GCurrent; GRestart; GCurrent]) = true.
 Proof. reflexivity. Qed.
+
+(* a block that was received completely but is still queued when the link is lost is never handed over *)
+Theorem stop_discards_queued :
+  let s := d_stop (drun true d0 [SPut; SSet; SDispatcher; SDispatcher; SDispatcher; SPut; SSet]) in
+  d_delivered s = 1 /\ d_queue s = 0 /\ forall tr, Forall (fun a => a = SDispatcher) tr -> d_delivered (drun true s tr) = 1.
+Proof.
+  cbv zeta. split; [reflexivity|]. split; [reflexivity|]. intros tr H.
+  assert (G : forall s0, d_queue s0 = 0 -> d_pending_sets s0 = 0 -> d_delivered (fold_left (dstep_fn true) tr s0) = d_delivered s0).
+  { induction H as [|a r Ha Hr IH]; intros s0 Q P; [reflexivity|]. subst a. cbn [fold_left].
+    assert (X : d_queue (dstep_fn true s0 SDispatcher) = 0 /\ d_pending_sets (dstep_fn true s0 SDispatcher) = 0 /\ d_delivered (dstep_fn true s0 SDispatcher) = d_delivered s0).
+    { destruct s0 as [q t pc p dl]. cbn in Q, P. subst q p. destruct pc, t; cbn; auto. }
+    destruct X as (X1 & X2 & X3). rewrite (IH _ X1 X2). exact X3. }
+  unfold drun. rewrite G; reflexivity.
+Qed.
